@@ -142,8 +142,8 @@ func runFirstUse(c FirstUseCase, o *Obs) error {
 	go func() { wg.Wait(); close(done) }()
 	select {
 	case <-done:
-	case <-time.After(120 * time.Second):
-		return fmt.Errorf("DEADLOCK-OR-HANG: after 120 s not every connection has finished")
+	case <-time.After(300 * time.Second):
+		return fmt.Errorf("DEADLOCK-OR-HANG: after 300 s not every connection has finished")
 	}
 	for ci, r := range results {
 		if r.err != nil {
